@@ -143,8 +143,8 @@ def setup(rc, interp):
     # progress when a destination finally sees it is the same one only if delivery is synchronous --
     # which is what this property is about)
     rc.sent_in = {}
-    dests = e.Logger._destinations
-    orig_send = dests.send
+    dests = getattr(e.Logger, "_destinations", None)
+    orig_send = getattr(dests, "send", None)
 
     def send(message, logger=None):
         a = _sched.current_actor()
@@ -154,7 +154,9 @@ def setup(rc, interp):
         except Exception:  # noqa
             pass
         return orig_send(message, logger)
-    dests.send = send
+    if orig_send is not None:
+        dests.send = send
+    # (a tree without that entry point: messages are attributed to the call in progress when the tap sees them)
     rc.snaps = []
     crash = rc.dec.stream("crash")
     p, pf = rc.cfg["p_crash"], rc.cfg["p_crash_file"]
@@ -361,7 +363,10 @@ def check_snapshot(rc, sn, recs, offered, ret_at):
             raise Violation(("garbage_tail", {"at": sn.tag}),
                             "crash@%s: trailing fragment %r is not a prefix of an in-flight write" % (sn.tag, tail[:80]))
     # every acknowledged message is there
-    for k, call in rc.sent_in.items():
+    emitted = dict(rc.sent_in)
+    for r in recs:
+        emitted.setdefault(key_of(r.msg), r.call)
+    for k, call in emitted.items():
         cid = call[0] if call else None
         if cid in ret_at and ret_at[cid] < sn.stamp and k not in seen:
             raise Violation(("ack_lost", {"at": sn.tag}),
@@ -406,13 +411,11 @@ def check_parse(rc, sn, msgs, recs):
         raise Violation(("parse_tasks", {"at": sn.tag}), "crash@%s: %d tasks parsed from %d task uuids" % (
             sn.tag, len(tasks), len(by_uuid)))
     for t in tasks:
-        nodes = dict(t._nodes)
-        root = None
-        for lv, n in nodes.items():
-            if lv.as_list() == []:
-                root = n
-        some = next(iter(nodes.values()))
-        u = some.task_uuid
+        try:
+            root = t.root()
+        except Exception as e:  # noqa
+            raise Violation(("parse_error", {"at": sn.tag}), "crash@%s: a parsed task has no root: %s" % (sn.tag, e))
+        u = root.task_uuid
         mine = by_uuid.get(u)
         if mine is None:
             raise Violation(("parse_tasks", {"at": sn.tag}), "crash@%s: a parsed task has unknown uuid %s" % (sn.tag, u))
@@ -430,14 +433,7 @@ def check_parse(rc, sn, msgs, recs):
                     walk(c)
             else:
                 got[tuple(n.task_level.as_list())] = dict(n.as_dict())
-        if root is not None:
-            walk(root)
-        else:
-            # no root node yet: walk the top-most nodes
-            tops = [n for lv, n in nodes.items()
-                    if not any(lv2.as_list() == lv.as_list()[:-1] for lv2 in nodes if lv2 is not lv)]
-            for n in tops:
-                walk(n)
+        walk(root)
         if set(got) != set(want):
             raise Violation(("parse_mismatch", {"at": sn.tag}),
                             "crash@%s: task %s: parser tree holds levels %s, disk has %s" % (
@@ -459,8 +455,7 @@ def check_parse(rc, sn, msgs, recs):
                                     "crash@%s: unfinished action at %s has status %r" % (sn.tag, list(pre), n.status))
                 for c in n.children:
                     check_status(c)
-        if root is not None:
-            check_status(root)
+        check_status(root)
         # completeness: exactly when every message the task ever logged is on disk and its root has ended
         full = all_by_uuid.get(u, [])
         root_done = any(len(m["task_level"]) == 1 and (
